@@ -653,3 +653,106 @@ def r_proxfoc_scalar_region(A, ctx, scope, rule="R-PROXFOC-CLOSED", only=None):
                                   f"{model.tag}.prox_1d({x}) = {un:.4g} is not a stationary point of "
                                   "0.5 (u - x)^2 + stepsize * value(u)", where, [])
     ctx.floor(rule, n, scope.get("floor", 20))
+
+
+# ------------------------------------------------------------------- R-INF-BLOCK
+def r_inf_block(A, ctx, scope, rule="R-INF-BLOCK"):
+    ctx.rule(rule, "group penalties with positive=True: the lifted value() is +inf exactly when "
+             "some coefficient is negative - in the analysed block or in another group, with a "
+             "zero group weight included (an unpenalised group is still constrained)")
+    n = 0
+    for cls in A.prog.penalties:
+        if cls.find_method("prox_1group") is None or "positive" not in A.prog.init_params(cls):
+            continue
+        where = loc(cls.find_method("value"), cls.find_method("value").node)
+        for zw in (False, True):
+            model = BlockModel(A, cls, {"positive": True}, zero_weight=zw)
+            for ws, wa, infeasible in (((2.0, 1.0), 0.37, False), ((-2.0, 1.0), 0.37, True),
+                                       ((2.0, -1.0), 0.37, True), ((0.0, 0.0), 0.37, False),
+                                       ((0.0, -0.3), 0.37, True), ((2.0, 1.0), -0.37, True),
+                                       ((0.0, 0.0), -0.37, True)):
+                key = f"{cls.fq}::value::{model.tag}::w={ws},other={wa}"
+                try:
+                    m = cls.find_method("value")
+                    args = [sym(nm) if v != 0 else const(0) for nm, v in zip(("w0", "w1"), ws)]
+                    L, rg = model.lifter({"w0": ws[0], "w1": ws[1], "wa": wa})
+                    val = R(L.call_function(m, [model.coef(*args)], self_obj=model.self_obj()))
+                    isinf = rg.num(val) >= 1e20
+                except (Unsupported, Raised) as e:
+                    ctx.ob(rule, key, None, detail=f"value not lifted: {e}")
+                    continue
+                n += 1
+                ctx.ob(rule, key, isinf == infeasible,
+                       what=f"{model.tag}.value() is {'infinite' if isinf else 'finite'} at a point that is "
+                            f"{'in' if infeasible else ''}feasible (block {ws}, coefficient of the other group "
+                            f"{wa}): " + ("the acceptance test of the extrapolation cannot reject infeasible "
+                                          "candidates" if infeasible else "feasible points are rejected"),
+                       loc=where)
+    ctx.floor(rule, n, scope.get("floor", 10))
+
+
+# ------------------------------------------------------------------- R-GSUPP
+GSUPP_W = [-1.7, -0.4, 0.0, 0.3, 0.9, 2.5, 7.0]
+
+
+def r_gsupp(A, ctx, scope, rule="R-GSUPP"):
+    ctx.rule(rule, "generalized_support keeps every coordinate the prox would move: wherever "
+             "prox(w_j, step) != w_j (infeasible points, points away from a kink) the mask is True, "
+             "so that working-set solvers never drop a coordinate that still has to be projected")
+    n = 0
+    for cls in A.prog.penalties:
+        gs = cls.find_method("generalized_support")
+        if gs is None or gs.cls.name == "BasePenalty":
+            continue
+        where = loc(gs, gs.node)
+        if cls.find_method("prox_1d") is not None and cls.find_method("prox_1d").cls.name != "BasePenalty":
+            for var in _variants(A.prog, cls):
+                try:
+                    model = ScalarModel(A, cls, var)
+                    model.self_obj()
+                except Unsupported as e:
+                    ctx.note(f"{rule}: {cls.name} skipped: {e}")
+                    break
+                for wv in GSUPP_W:
+                    key = f"{cls.fq}::generalized_support::{model.tag}::w={wv}"
+                    try:
+                        L, rg = model.lifter({"w0": wv})
+                        wsym = sym("w0") if wv != 0 else const(0)
+                        u = R(L.call_function(cls.find_method("prox_1d"), [wsym, sym("s"), 1],
+                                              self_obj=model.self_obj()))
+                        moved = abs(rg.num(u) - wv) > 1e-12
+                        mask = L.call_function(gs, [Vec([sym("wa"), wsym])], self_obj=model.self_obj())
+                        inside = bool(mask[1])
+                    except (Unsupported, Raised) as e:
+                        if cls.name in SCALAR_NOT_DECIDED:
+                            continue
+                        ctx.ob(rule, key, None, detail=f"not lifted: {e}")
+                        continue
+                    n += 1
+                    ctx.ob(rule, key, inside or not moved,
+                           what=f"{model.tag}: generalized_support is False at w_j = {wv} although the prox "
+                                f"moves that point (to {rg.num(u):.4g}): a working-set solver can leave the "
+                                "coordinate out and return it unchanged (infeasible warm starts stay infeasible)",
+                           loc=where)
+        elif cls.find_method("prox_1group") is not None or cls.find_method("prox_1feat") is not None:
+            if cls.name in BLOCK_NOT_CLAIMED:
+                continue
+            for var in _variants(A.prog, cls):
+                model = BlockModel(A, cls, var)
+                for ws in [(2.0, 1.0), (-2.0, 1.0), (0.0, 0.0), (0.0, -0.3), (0.3, 0.0)]:
+                    key = f"{cls.fq}::generalized_support::{model.tag}::w={ws}"
+                    try:
+                        u, rg = model.prox(ws)
+                        moved = any(abs(rg.num(u[i]) - ws[i]) > 1e-12 for i in range(2))
+                        L, rg2 = model.lifter({"w0": ws[0], "w1": ws[1]})
+                        args = [sym(nm) if v != 0 else const(0) for nm, v in zip(("w0", "w1"), ws)]
+                        mask = L.call_function(gs, [model.coef(*args)], self_obj=model.self_obj())
+                        inside = bool(mask[1])
+                    except (Unsupported, Raised) as e:
+                        ctx.ob(rule, key, None, detail=f"not lifted: {e}")
+                        continue
+                    n += 1
+                    ctx.ob(rule, key, inside or not moved,
+                           what=f"{model.tag}: generalized_support is False for the block {ws} although the "
+                                "prox moves it", loc=where)
+    ctx.floor(rule, n, scope.get("floor", 40))
